@@ -80,6 +80,48 @@ fn tables(cli: &Cli, rep: &mut Report) {
             }
         }
     }
+    // one table shared by several threads, as the store's shard workers share the tracker's table: validate(&self) is called
+    // concurrently for different gaps and every answer must be the answer of the sequential lookup
+    if !cli.small && cli.replay_index.is_none() {
+        let calls = vec![vec![(1usize, 0.5f32), (3, 2.0), (5, 4.0)]];
+        let mut c = SpatioTemporalConstraints::new();
+        c.add_constraints(calls[0].clone());
+        let c = std::sync::Arc::new(c);
+        let expected: Vec<Option<f32>> = (0..=7usize).map(|g| limit_for_gap(&calls, g)).collect();
+        let expected = std::sync::Arc::new(expected);
+        let bad = std::sync::Arc::new(std::sync::Mutex::new(Vec::<vh::Value>::new()));
+        let n_probes = if cli.thorough() { 2_000_000u64 } else { 300_000 };
+        let hs: Vec<_> = (0..4u64)
+            .map(|t| {
+                let (c, expected, bad) = (c.clone(), expected.clone(), bad.clone());
+                let seed = cli.seed ^ (cli.shard << 8) ^ t;
+                std::thread::spawn(move || {
+                    let mut rng = Rng::for_case(seed, t, 77);
+                    for k in 0..n_probes {
+                        // each thread dwells on its own gap most of the time
+                        let gap = if rng.chance(0.8) { (1 + 2 * t as usize) % 8 } else { rng.usize(8) };
+                        let d = *rng.pick(&[0.25f32, 0.5, 0.75, 1.0, 2.0, 3.0, 4.0, 5.0]);
+                        let exp = expected[gap].map_or(true, |l| d <= l);
+                        if c.validate(gap, d) != exp {
+                            let mut b = bad.lock().unwrap();
+                            if b.len() < 5 {
+                                b.push(json!({"thread": t, "probe": k, "gap": gap, "distance": d, "expected": exp}));
+                            }
+                            return;
+                        }
+                    }
+                })
+            })
+            .collect();
+        for h in hs {
+            let _ = h.join();
+        }
+        rep.add("concurrent_validate_probes", 4 * n_probes);
+        let b = bad.lock().unwrap();
+        if !b.is_empty() {
+            rep.violation("C20/validate/concurrent-callers", 0, json!({"table": calls, "first_wrong_answers": *b}));
+        }
+    }
     // the empty table admits everything
     let c = SpatioTemporalConstraints::new();
     for gap in 0..=10usize {
@@ -87,6 +129,7 @@ fn tables(cli: &Cli, rep: &mut Report) {
             rep.violation("C20/validate/empty-table-rejects", 0, json!({"gap": gap}));
         }
     }
+    rep.note("concurrent_validate", json!("one table shared by four threads (as the shard workers share the tracker's table), 3e5 (quick) / 2e6 (thorough) probes per thread and process, each thread dwelling on its own gap: every answer must equal the sequential lookup"));
     rep.note("exhaustive_tables", json!("every ordered sequence of <= 3 entries over gaps 0..8 x limits {0.5,1,2,4}, in one call and in every split over two add_constraints calls (142 596 tables), probed at gaps 0..10 x 9 distances incl. the limits themselves and +-1e-5"));
 }
 
